@@ -30,6 +30,8 @@ type e1Spec struct {
 	digSat   int
 	maxLen   int
 	noPump   bool
+	// pumpN / pumpTail override the pumping bounds (default 9/8 quick, 17/16 thorough)
+	pumpN, pumpTail int
 	// handWritten: part of the explored code is hand-written (no liveness hook), so recovery
 	// exploration past reference-dead children is always on.
 	handWritten bool
@@ -156,7 +158,11 @@ func runE1(r *eng.Run, sp e1Spec, D, K, maxStates int) e1Result {
 	}
 	if !sp.noPump && !r.TooMany() {
 		expanding = false
-		res.pumped = eng.Pump(r, res.st.Loops, visit, func(x []byte) []byte { return ref.Run(x).Completion() }, r.Pick(9, 17), r.Pick(8, 16))
+		pn, pt := r.Pick(9, 17), r.Pick(8, 16)
+		if sp.pumpN > 0 {
+			pn, pt = sp.pumpN, sp.pumpTail
+		}
+		res.pumped = eng.Pump(r, res.st.Loops, visit, func(x []byte) []byte { return ref.Run(x).Completion() }, pn, pt)
 	}
 	if res.oracle > 0 {
 		r.Inexhaustive(fmt.Sprintf("reference model disagrees with the standard library on %d inputs (oracle fault, not a violation)", res.oracle))
